@@ -1,5 +1,6 @@
 import Originium.Model.Oracle3
 import Originium.Model.ConstsTie
+import Originium.Model.TxnTie
 /-! # C08 — discarded, refused and failed transactions leave no trace; misuse is answered with the documented error -/
 namespace Props
 open Sys
@@ -184,6 +185,46 @@ theorem C08_accepts (t : Oracle2.Txn) (k v : List UInt8) (hu : t.update = true) 
   have b : ¬ Consts.maxValueSize < v.length := by omega
   simp [apiSet, hu, h, hke, a, b]
 
+
+/-! ### The Go code itself (definitions regenerated from `/repo` by `extract/gotrans.go` on every run) -/
+
+/-- the translated `Txn.modify` (Set / Delete / SetEntry) answers the model's `apiSet` error, and touches the private
+    buffers only when it answers nil: then the write becomes the newest pending binding; otherwise nothing changes -/
+theorem C08_code_modify (t : Oracle2.Txn) (k v : List UInt8) (tomb : Bool) (mk mv : Nat) (w : List (List UInt8 × Unit))
+    (p : List (List UInt8 × GenTxn.Ent)) :
+    let r := GenTxn.modify (!t.update) t.finished k v tomb mk mv w p
+    TxnTie.errOf r.1 = Sys.apiSet mk mv t k v ∧
+    (r.1 = .nil → r.2 = ((k, ()) :: w, (k, (v, tomb)) :: p)) ∧ (r.1 ≠ .nil → r.2 = (w, p)) :=
+  ⟨TxnTie.modify_err t k v tomb mk mv w p, TxnTie.modify_effect (!t.update) t.finished k v tomb mk mv w p⟩
+
+/-- misuse of the translated code: Get on a finished transaction or with an empty key answers `(nil, false)` and records
+    nothing; Commit on a finished transaction answers ErrDiscardedTxn with no effect at all; View and Update on a closed
+    DB answer ErrDBClosed without calling the closure or beginning a transaction -/
+theorem C08_code_misuse (ro disc : Bool) (k : List UInt8) (ts : Nat) (p : List (List UInt8 × GenTxn.Ent)) (reads : List (List UInt8))
+    (closed conflict : Bool) (fnRes c : GenTxn.E) :
+    ((disc = true ∨ k = []) → GenTxn.get ro disc k ts p reads = (.direct [] false, reads)) ∧
+    GenTxn.commit true p closed ts conflict [] = (.ErrDiscardedTxn, []) ∧
+    GenTxn.view true fnRes c [] = (.ErrDBClosed, []) ∧ GenTxn.update true fnRes c [] = (.ErrDBClosed, []) := by
+  refine ⟨TxnTie.get_misuse ro disc k ts p reads, ?_, ?_, ?_⟩
+  · rw [TxnTie.commit_table]; simp
+  · rw [TxnTie.view_table]; simp
+  · rw [TxnTie.update_table]; simp
+
+/-- the translated `DB.Update`: Commit is called iff the closure returned nil; with an error the error is returned and
+    only the deferred Discard follows; the translated `Txn.Commit` of a transaction that wrote nothing, or on a closed
+    DB, never reaches the oracle or the store -/
+theorem C08_code_update_commit (closed : Bool) (fnRes c : GenTxn.E) (t : Oracle2.Txn) (ts : Nat) (conflict : Bool) :
+    GenTxn.update closed fnRes c [] =
+      (if closed then (.ErrDBClosed, [])
+       else if fnRes = .nil then (c, ["Begin true", "defer Discard", "fn", "Commit"])
+       else (fnRes, ["Begin true", "defer Discard", "fn"])) ∧
+    (match Sys.apiCommitPre closed t with
+     | some e => TxnTie.errOf (GenTxn.commit t.finished (TxnTie.pendOf t.writes) closed ts conflict []).1 = e ∧
+                 "rawset" ∉ (GenTxn.commit t.finished (TxnTie.pendOf t.writes) closed ts conflict []).2 ∧
+                 "newCommitTs" ∉ (GenTxn.commit t.finished (TxnTie.pendOf t.writes) closed ts conflict []).2
+     | none => "newCommitTs" ∈ (GenTxn.commit t.finished (TxnTie.pendOf t.writes) closed ts conflict []).2) :=
+  ⟨TxnTie.update_table closed fnRes c, TxnTie.commit_pre t closed ts conflict⟩
+
 #print axioms C08_no_effect
 #print axioms C08_history_only_committed
 #print axioms C08_storage_only_history
@@ -193,4 +234,7 @@ theorem C08_accepts (t : Oracle2.Txn) (k v : List UInt8) (hu : t.update = true) 
 #print axioms C08_oversize
 #print axioms C08_after_close
 #print axioms C08_accepts
+#print axioms C08_code_modify
+#print axioms C08_code_misuse
+#print axioms C08_code_update_commit
 end Props
